@@ -102,6 +102,7 @@ class ProgGen:
             "words.first", "nums", "nums.size", "nums[1]", "ghost", "ghost.x.y", "user.ghost",
             "products[99].title", "user.tags[n]", "now", "forloop.index", "forloop.parentloop.index0",
             "who", "item", "item.title", "item.price", "p.title", "args", "kwargs", "block.super",
+            "n.size", "user.age.first", "flag.last", "s.first", "s.last", "s.size", "nothing.first", "m.last",
         ]
         if self.locals and r.random() < 0.3:
             return r.choice(self.locals)
@@ -399,7 +400,7 @@ class ProgGen:
         if r.random() < 0.3:
             s += f" limit: {r.choice(['1', '2', 'n', 'm'])}"
         if r.random() < 0.3:
-            s += f" offset: {r.choice(['1', 'n', 'continue'])}"
+            s += f" offset: {r.choice(['1', 'n', 'continue', repr('1'), repr('x')])}"
         if r.random() < 0.2:
             s += " reversed"
         return s
@@ -430,6 +431,8 @@ class ProgGen:
             e += f" cols: {r.choice(['2', '3', 'n', 'm'])}"
         body = self.block(depth + 1, 1) + self.out(r.choice(["tablerowloop.col", "tablerowloop.row",
                                                               "tablerowloop.col_last", "item"]))
+        if r.random() < 0.35:
+            body += self.tag("if " + self.cond()) + self.tag(r.choice(["break", "continue"])) + self.tag("endif") + "t"
         return self.tag("tablerow " + e) + body + self.tag("endtablerow")
 
     def n_cycle(self, depth):
@@ -600,7 +603,7 @@ class ProgGen:
                 parent = r.choice(["layouts/nope", names[i], "p0"])  # missing parent / cycle / not a layout
             src = self.tag(f"extends '{parent}'")
             for b in r.sample(blocks, r.randint(0, 3)):
-                src += self.tag(f"block {b}") + f"L{i}-{b} " + (self.out("block.super") if r.random() < 0.6 else "") \
+                src += self.tag(f"block {b}" + (" required" if r.random() < 0.08 else "")) + f"L{i}-{b} " + (self.out("block.super") if r.random() < 0.6 else "") \
                     + self.block(self.max_depth - 1, 1) + self.tag(f"endblock {b}" if r.random() < 0.3 else "endblock")
             self.partials[names[i]] = src
         return names[depth_chain - 1]
